@@ -77,16 +77,16 @@ PROPS['C16'] = dict(
 
 PROPS['C18'] = dict(
     category='other',
-    technique='Kani two-history harnesses on the real Curve / BorrowedCurve / SliderPath code: compute A then B on shared buffers and compare bit-for-bit with B on fresh buffers; cache wiring proved loop-free',
-    level_text='bounded stand-in for buffer independence (histories of two computations over single LINEAR segments, empty list included; multi-segment lists in the thorough tier) over all finite f32 coordinates; SliderPath cache fill / invalidation proved (Kani, loop-free, every requested length)',
+    technique='Verus functional contract on the in-place de Casteljau subdivision (what it writes is a function of the control points alone, whatever the shared scratch buffers held); Kani two-history harnesses on the real Curve / BorrowedCurve / SliderPath code: compute A then B on shared buffers and compare bit-for-bit with B on fresh buffers; cache wiring proved loop-free',
+    level_text='proved (Verus, every number of control points, every previous content of the three scratch buffers): after bezier_subdivide / bezier_approximate every entry a caller reads (l[m], r[m], m < points.len()) equals the de Casteljau triangle value tri(points, ..) -- a function of the control points only (float midpoint uninterpreted); calculate_path clears path and vertices before use and the four scratch vectors keep equal length. bounded stand-in for buffer independence (histories of two computations over single LINEAR segments, empty list included; multi-segment lists in the thorough tier) over all finite f32 coordinates; SliderPath cache fill / invalidation proved (Kani, loop-free, every requested length)',
     level_note='assumed: Pos::length is a deterministic function of its argument; Bezier / Catmull / circular-arc approximators are not exercised by the histories (float-heavy, out of CBMC reach)',
-    verus=[], kani=['curve.kc'],
+    verus=[dict(unit='bez', tier='quick')], kani=['curve.kc'],
     only_prefix=['c18_'],
     kani_functions=['src/section/hit_objects/slider/curve.rs :: fn calculate_path', 'src/section/hit_objects/slider/curve.rs :: fn calculate_length',
                     'src/section/hit_objects/slider/curve.rs :: Curve::new / BorrowedCurve::new', 'src/section/hit_objects/slider/path.rs :: impl SliderPath (curve, curve_with_bufs, borrowed_curve, control_points_mut, expected_dist_mut, clear_curve)'],
     explanation='see level_text; per-obligation statements in coverage.samples[].states',
     trusted_base=_CURVE_TRUST, assumptions=[],
-    not_decided=['histories longer than two computations', 'non-linear segment kinds (bezier buffers are read only at indices written in the same call: not verified)'],
+    not_decided=['histories longer than two computations', 'the adaptive subdivision stack of approximate_bspline as a whole (its children are proved to be functions of the parent only), Catmull / circular-arc kinds'],
 )
 
 PROPS['C19'] = dict(
